@@ -95,6 +95,18 @@ def run(ctx):
     ctx.suite("runlimit.replacement", cases=nC, address_reused=reused)
     cover.append(("runlimit.replacement", "address_reused", reused, 10))
 
+    # ---- a run snapshotted mid-step and resumed while fresh runs hold every slot
+    nD, full = ctx.n(24, 300), 0
+    for i in range(nD):
+        out, facts = RL.resume_case(rng)
+        full += 1 if facts["peak_after_resume"] >= facts["spec"]["limit"] else 0
+        ctx.count(1, ("resume", facts["spec"]["limit"], facts["spec"]["fresh_runs"], facts["peak_after_resume"], facts["finished"]))
+        for k, msg, d in out:
+            findings.append((k, msg, d, dict(instances=[], ops=[], resume=d)))
+    ctx.programs += nD
+    ctx.suite("runlimit.resume", cases=nD, all_slots_busy_when_resumed=full)
+    cover.append(("runlimit.resume", "all_slots_busy_when_resumed", full, 5))
+
     # ---- verdicts ---------------------------------------------------------------------------------
     seen = set()
     findings.sort(key=lambda f: len(f[3]["ops"]))
